@@ -180,10 +180,10 @@ func (e *loopyVEnv) legal(st loopyVStep) bool {
 	switch st.K {
 	case "open", "abort":
 		return !e.opened[s]
-	case "hdr":
-		return e.opened[s] && !e.closed[s] && !e.last[s]
-	case "data", "trailers":
-		return e.opened[s] && !e.closed[s] && !e.last[s]
+	case "hdr", "data", "trailers":
+		// on a live stream until the final write; after the stream's cleanupStream / earlyAbortStream the
+		// item is one that lost the race in the control buffer (the writer must drop it)
+		return e.opened[s] && (e.closed[s] || !e.last[s])
 	case "cleanup":
 		return e.opened[s] && !e.closed[s]
 	case "wu":
@@ -382,6 +382,16 @@ func TestVerifLoopyRandom(t *testing.T) {
 			}
 			return out
 		}
+		// recently closed streams (cleanupStream / earlyAbortStream handled)
+		gone := func() []uint32 {
+			var out []uint32
+			for s := uint32(1); s < next; s += 2 {
+				if e.closed[s] && s+12 >= next {
+					out = append(out, s)
+				}
+			}
+			return out
+		}
 		writable := func() []uint32 {
 			var out []uint32
 			for _, s := range live() {
@@ -449,6 +459,18 @@ func TestVerifLoopyRandom(t *testing.T) {
 				}
 			case x < 54 && len(lv) > 0:
 				st = loopyVStep{K: "cleanup", S: lv[rng.Intn(len(lv))], B: rng.Intn(3) > 0}
+			case x < 57 && len(gone()) > 0:
+				// an item that lost the race against the stream's cleanupStream / earlyAbortStream
+				gs := gone()
+				s := gs[rng.Intn(len(gs))]
+				switch y := rng.Intn(4); {
+				case y == 0 && srv:
+					st = loopyVStep{K: "hdr", S: s, H: rng.Intn(6) / 5}
+				case y == 1 && srv:
+					st = loopyVStep{K: "trailers", S: s, B: rng.Intn(2) == 0}
+				default:
+					st = loopyVStep{K: "data", S: s, N: payloads[rng.Intn(len(payloads))], H: 5}
+				}
 			case x < 70:
 				n := incs[rng.Intn(len(incs))]
 				if stingy && rng.Intn(2) == 0 {
